@@ -16,9 +16,9 @@ import (
 
 // keyed, commutative sinks that may be called from inside a map-range loop.
 var commutativeSinks = map[string]string{
-	"pegnet.Pegnet.AddToBalance":                                    "balance += value on (address,ticker): additions commute; fails only on overflow/CHECK, independent of order",
+	"pegnet.Pegnet.AddToBalance":                                   "balance += value on (address,ticker): additions commute; fails only on overflow/CHECK, independent of order",
 	"pegnet.Pegnet.SetTransactionHistoryPEGConvertedRequestAmount": "UPDATE keyed by (entry_hash, tx_index): one row per call, rows disjoint",
-	"pegnet.SplitTxID":                                                 "pure",
+	"pegnet.SplitTxID":                                             "pure",
 }
 
 // functions whose map-ordered credits go to addresses that already have a pn_addresses row (so no row is created in
@@ -432,6 +432,84 @@ func (o *otaint) analyseLoop(ml *mapLoop, cons string) []taintSrc {
 		}
 	}
 	// 2. effects in the body
+	var judgeCall func(x ssa.CallInstruction, depth int)
+	judgeCall = func(x ssa.CallInstruction, depth int) {
+		cc := x.Common()
+		name := calleeName(cc)
+		if _, ok := cc.Value.(*ssa.Builtin); ok {
+			return
+		}
+		if why, ok := commutativeSinks[name]; ok {
+			// the upsert also creates the address row when there is none: creation order fixes the rowid, and the
+			// rowid breaks ties in `ORDER BY peg_balance DESC LIMIT 100` (top-holder test of the SPR grader). Only
+			// credits to an address that already has a row (the debited input address) are free of that.
+			existing := ""
+			for _, on := range c.ownerNames(ml.f) {
+				if why, ok := creditsExistingRows[on]; ok {
+					existing = why
+				}
+			}
+			if existing != "" && name == "pegnet.Pegnet.AddToBalance" {
+				notes = append(notes, "AddToBalance in map order: "+existing)
+				return
+			}
+			if name == "pegnet.Pegnet.AddToBalance" && len(cc.Args) > 2 && !strings.HasSuffix(typePath(cc.Args[2]), "TypedAddressAmountTuple.Address") {
+				problems = append(problems, fmt.Sprintf("AddToBalance for an address that may be new (%s) inside a map-range loop at %s: rows of pn_addresses are then created in map order, and their rowids decide ties in the top-100 PEG holder query", stablePath(cc.Args[2], 0), c.ipos(x)))
+				return
+			}
+			notes = append(notes, fmt.Sprintf("%s: keyed commutative sink (%s)", shortCallee(cc), why))
+			return
+		}
+		if pe := primEffect(cc); pe == "sql" {
+			// statements executed inside the loop must be keyed INSERT/UPDATE
+			if name == "database/sql.Stmt.Exec" || name == "database/sql.Tx.Prepare" {
+				okStmt := true
+				for _, st := range o.cat.Stmts {
+					if st.Fn == x.Parent() && st.Site == x {
+						if st.Verb != "INSERT" && st.Verb != "UPDATE" {
+							okStmt = false
+						}
+					}
+				}
+				if okStmt {
+					notes = append(notes, "keyed INSERT/UPDATE (row ids are outside the property)")
+					return
+				}
+			}
+			problems = append(problems, fmt.Sprintf("database call %s inside a map-range loop at %s", name, c.ipos(x)))
+			return
+		} else if pe == "factom" {
+			problems = append(problems, fmt.Sprintf("upstream call %s inside a map-range loop at %s", name, c.ipos(x)))
+			return
+		}
+		if sc := cc.StaticCallee(); sc != nil && fnInModule(sc) {
+			if o.eff.Effectful[sc] && isNewHelper(sc) && sc.Parent() == nil && depth < 3 && !writesThroughParams(sc) {
+				// a helper split off from the loop body: judged by what it does, as if it still sat in the loop
+				allInstrs(sc, func(j ssa.Instruction) {
+					if cj, ok := j.(ssa.CallInstruction); ok {
+						judgeCall(cj, depth+1)
+					}
+				})
+				return
+			}
+			if o.eff.Effectful[sc] {
+				problems = append(problems, fmt.Sprintf("call to %s (writes/reads the database, not a known commutative sink) inside a map-range loop at %s", name, c.ipos(x)))
+			} else if writesThroughParams(sc) {
+				problems = append(problems, fmt.Sprintf("call to %s (mutates its arguments) inside a map-range loop at %s", name, c.ipos(x)))
+			}
+			return
+		}
+		if isPureLib(name) || strings.HasPrefix(name, "builtin.") {
+			return
+		}
+		if cc.IsInvoke() {
+			return // method on interface value (graders, error.Error): no ledger access without a tx
+		}
+		if clockFuncs[name] {
+			return // judged by the clock rule
+		}
+		problems = append(problems, fmt.Sprintf("call to %s inside a map-range loop at %s is not classified", name, c.ipos(x)))
+	}
 	for b := range ml.blocks {
 		for _, ins := range b.Instrs {
 			switch x := ins.(type) {
@@ -485,72 +563,7 @@ func (o *otaint) analyseLoop(ml *mapLoop, cons string) []taintSrc {
 					}
 				}
 			case ssa.CallInstruction:
-				cc := x.Common()
-				name := calleeName(cc)
-				if _, ok := cc.Value.(*ssa.Builtin); ok {
-					continue
-				}
-				if why, ok := commutativeSinks[name]; ok {
-					// the upsert also creates the address row when there is none: creation order fixes the rowid, and the
-					// rowid breaks ties in `ORDER BY peg_balance DESC LIMIT 100` (top-holder test of the SPR grader). Only
-					// credits to an address that already has a row (the debited input address) are free of that.
-					existing := ""
-					for _, on := range c.ownerNames(ml.f) {
-						if why, ok := creditsExistingRows[on]; ok {
-							existing = why
-						}
-					}
-					if existing != "" && name == "pegnet.Pegnet.AddToBalance" {
-						notes = append(notes, "AddToBalance in map order: "+existing)
-						continue
-					}
-					if name == "pegnet.Pegnet.AddToBalance" && len(cc.Args) > 2 && !strings.HasSuffix(typePath(cc.Args[2]), "TypedAddressAmountTuple.Address") {
-						problems = append(problems, fmt.Sprintf("AddToBalance for an address that may be new (%s) inside a map-range loop at %s: rows of pn_addresses are then created in map order, and their rowids decide ties in the top-100 PEG holder query", stablePath(cc.Args[2], 0), c.ipos(ins)))
-						continue
-					}
-					notes = append(notes, fmt.Sprintf("%s: keyed commutative sink (%s)", shortCallee(cc), why))
-					continue
-				}
-				if pe := primEffect(cc); pe == "sql" {
-					// statements executed inside the loop must be keyed INSERT/UPDATE
-					if name == "database/sql.Stmt.Exec" || name == "database/sql.Tx.Prepare" {
-						okStmt := true
-						for _, st := range o.cat.Stmts {
-							if st.Fn == ml.f && ml.blocks[st.Site.Block()] && st.Site == x {
-								if st.Verb != "INSERT" && st.Verb != "UPDATE" {
-									okStmt = false
-								}
-							}
-						}
-						if okStmt {
-							notes = append(notes, "keyed INSERT/UPDATE (row ids are outside the property)")
-							continue
-						}
-					}
-					problems = append(problems, fmt.Sprintf("database call %s inside a map-range loop at %s", name, c.ipos(ins)))
-					continue
-				} else if pe == "factom" {
-					problems = append(problems, fmt.Sprintf("upstream call %s inside a map-range loop at %s", name, c.ipos(ins)))
-					continue
-				}
-				if sc := cc.StaticCallee(); sc != nil && fnInModule(sc) {
-					if o.eff.Effectful[sc] {
-						problems = append(problems, fmt.Sprintf("call to %s (writes/reads the database, not a known commutative sink) inside a map-range loop at %s", name, c.ipos(ins)))
-					} else if writesThroughParams(sc) {
-						problems = append(problems, fmt.Sprintf("call to %s (mutates its arguments) inside a map-range loop at %s", name, c.ipos(ins)))
-					}
-					continue
-				}
-				if isPureLib(name) || strings.HasPrefix(name, "builtin.") {
-					continue
-				}
-				if cc.IsInvoke() {
-					continue // method on interface value (graders, error.Error): no ledger access without a tx
-				}
-				if clockFuncs[name] {
-					continue // judged by the clock rule
-				}
-				problems = append(problems, fmt.Sprintf("call to %s inside a map-range loop at %s is not classified", name, c.ipos(ins)))
+				judgeCall(x, 0)
 			}
 		}
 	}
@@ -637,20 +650,39 @@ func comparatorCovers(less ssa.Value, fields []int) bool {
 func (o *otaint) followTainted(ml *mapLoop, P taintSrc, cons string) {
 	c, r := o.c, o.r
 	rule := "C01/tainted-slice"
-	f := ml.f
 	keyFields, elemIsKey := ml.uniqueKeyFields(P)
-	T := map[ssa.Value]bool{}
-	var work []ssa.Value
+	var seeds []ssa.Value
 	if P.phi != nil {
-		T[P.phi] = true
-		work = append(work, P.phi)
+		seeds = append(seeds, P.phi)
 	} else if refs := P.alloc.Referrers(); refs != nil {
 		for _, rf := range *refs {
 			if ld, ok := rf.(*ssa.UnOp); ok && ld.Op == token.MUL && !ml.blocks[ld.Block()] {
-				T[ld] = true
-				work = append(work, ld)
+				seeds = append(seeds, ld)
 			}
 		}
+	}
+	problems := o.followIn(ml.f, seeds, ml.blocks, keyFields, elemIsKey, 0)
+	sort.Strings(problems)
+	cons = cons + " slice " + P.name()
+	var ppos ssa.Instruction = ml.rng
+	if len(problems) == 0 {
+		r.okNT(rule, cons, c.ipos(ppos), "only len(), sanitisers (total-order sort on unique keys) or guarded singleton access before any element use")
+	} else {
+		r.viol(rule, cons, c.ipos(ppos), strings.Join(uniq(problems), "; "))
+	}
+}
+
+// followIn follows order-tainted values through f (seeds: the tainted values; inLoop: the blocks of the loop that
+// builds them, nil when the slice arrives from elsewhere) and returns the uses that make the result depend on the
+// order. A tainted slice returned by a helper split off from the reference code, or handed to such a helper, is
+// followed there.
+func (o *otaint) followIn(f *ssa.Function, seeds []ssa.Value, inLoop map[*ssa.BasicBlock]bool, keyFields []int, elemIsKey bool, depth int) []string {
+	c := o.c
+	T := map[ssa.Value]bool{}
+	var work []ssa.Value
+	for _, sd := range seeds {
+		T[sd] = true
+		work = append(work, sd)
 	}
 	type sortSite struct {
 		ins      ssa.Instruction
@@ -696,6 +728,109 @@ func (o *otaint) followTainted(ml *mapLoop, P taintSrc, cons string) {
 		}
 		return false
 	}
+	// pathSanitised: every path from the function's entry to ins crosses a complete sort or the `len(t) == 1` edge of a
+	// tainted t (`if len(top) != 1 { sort(top) }; use(top[0])`: sorted on one path, a singleton on the other)
+	pathSanitised := func(ins ssa.Instruction) bool {
+		cutBlock := map[*ssa.BasicBlock]ssa.Instruction{}
+		for _, s := range sorts {
+			if s.complete {
+				cutBlock[s.ins.Block()] = s.ins
+			}
+		}
+		cutEdge := map[[2]int]bool{}
+		for _, b := range f.Blocks {
+			bo, _, eq := eqEdges(b)
+			if bo == nil || eq == nil {
+				continue
+			}
+			x, y := bo.X, bo.Y
+			if _, isK := x.(*ssa.Const); isK {
+				x, y = y, x
+			}
+			k, ok := y.(*ssa.Const)
+			if !ok || k.Value == nil || k.Int64() != 1 {
+				continue
+			}
+			if lc, ok := x.(*ssa.Call); ok {
+				if bi, ok := lc.Call.Value.(*ssa.Builtin); ok && bi.Name() == "len" && T[lc.Call.Args[0]] {
+					cutEdge[[2]int{b.Index, eq.Index}] = true
+				}
+			}
+		}
+		if len(cutBlock) == 0 && len(cutEdge) == 0 {
+			return false
+		}
+		seen := map[*ssa.BasicBlock]bool{f.Blocks[0]: true}
+		st := []*ssa.BasicBlock{f.Blocks[0]}
+		for len(st) > 0 {
+			b := st[len(st)-1]
+			st = st[:len(st)-1]
+			if b == ins.Block() {
+				if srt, isCut := cutBlock[b]; !isCut || !instrDominates(srt, ins) {
+					return false
+				}
+			}
+			if _, isCut := cutBlock[b]; isCut {
+				continue
+			}
+			for _, sx := range b.Succs {
+				if seen[sx] || cutEdge[[2]int{b.Index, sx.Index}] {
+					continue
+				}
+				seen[sx] = true
+				st = append(st, sx)
+			}
+		}
+		return true
+	}
+	// phiEdgesSafe: the accessed slice is a merge; every tainted incoming value arrives over an edge that lies behind
+	// the `len(t) == 1` edge of that value (the other edges carry sanitised results)
+	var phiEdgesSafe func(ph *ssa.Phi, depth int) bool
+	phiEdgesSafe = func(ph *ssa.Phi, depth int) bool {
+		if depth > 3 {
+			return false
+		}
+		for i, e := range ph.Edges {
+			if !T[e] {
+				continue
+			}
+			pred := ph.Block().Preds[i]
+			if inLoop[pred] {
+				return false
+			}
+			safe := false
+			for _, b := range f.Blocks {
+				bo, _, eq := eqEdges(b)
+				if bo == nil || eq == nil {
+					continue
+				}
+				x, y := bo.X, bo.Y
+				if _, isK := x.(*ssa.Const); isK {
+					x, y = y, x
+				}
+				k, ok := y.(*ssa.Const)
+				if !ok || k.Value == nil || k.Int64() != 1 {
+					continue
+				}
+				if lc, ok := x.(*ssa.Call); ok {
+					if bi, ok := lc.Call.Value.(*ssa.Builtin); ok && bi.Name() == "len" && lc.Call.Args[0] == e {
+						if (eq == ph.Block() && pred == b) || edgeTargetDom(eq, pred) {
+							safe = true
+						}
+					}
+				}
+			}
+			if !safe {
+				if p2, ok := e.(*ssa.Phi); ok && p2 != ph && phiEdgesSafe(p2, depth+1) {
+					safe = true
+				}
+			}
+			if !safe {
+				return false
+			}
+		}
+		return true
+	}
 	// first pass: find in-place sorts of tainted values (need T closed first) — iterate to fixpoint
 	for iter := 0; iter < 3; iter++ {
 		for len(work) > 0 {
@@ -706,7 +841,7 @@ func (o *otaint) followTainted(ml *mapLoop, P taintSrc, cons string) {
 				continue
 			}
 			for _, rf := range *refs {
-				if ml.blocks[rf.Block()] {
+				if inLoop[rf.Block()] {
 					continue // inside the building loop
 				}
 				switch x := rf.(type) {
@@ -758,14 +893,17 @@ func (o *otaint) followTainted(ml *mapLoop, P taintSrc, cons string) {
 			continue
 		}
 		for _, rf := range *refs {
-			if ml.blocks[rf.Block()] {
+			if inLoop[rf.Block()] {
 				continue
 			}
 			switch x := rf.(type) {
 			case *ssa.Phi, *ssa.Slice, *ssa.MakeInterface, *ssa.ChangeType, *ssa.DebugRef, *ssa.Store:
 				continue
 			case *ssa.IndexAddr, *ssa.Index:
-				if lenEq1Guard(rf) || sanitisedBefore(rf) {
+				if lenEq1Guard(rf) || sanitisedBefore(rf) || pathSanitised(rf) {
+					continue
+				}
+				if ph, ok := v.(*ssa.Phi); ok && !inLoop[ph.Block()] && phiEdgesSafe(ph, 0) {
 					continue
 				}
 				problems = append(problems, fmt.Sprintf("element access at %s on a slice whose order comes from map iteration (no total-order sort before it)", c.ipos(rf)))
@@ -793,9 +931,44 @@ func (o *otaint) followTainted(ml *mapLoop, P taintSrc, cons string) {
 				if sanitisedBefore(rf) {
 					continue
 				}
+				if sc := x.Call.StaticCallee(); sc != nil && isNewHelper(sc) && sc.Parent() == nil && sc.Blocks != nil && depth < 3 {
+					// handed to a helper split off from the reference code: followed there
+					var sub []ssa.Value
+					for i, a := range x.Call.Args {
+						if a == v && i < len(sc.Params) {
+							sub = append(sub, sc.Params[i])
+						}
+					}
+					if len(sub) > 0 {
+						problems = append(problems, o.followIn(sc, sub, nil, keyFields, elemIsKey, depth+1)...)
+						continue
+					}
+				}
 				problems = append(problems, fmt.Sprintf("order-tainted slice passed to %s at %s", name, c.ipos(rf)))
 			case *ssa.Return:
 				if !sanitisedBefore(rf) {
+					if isNewHelper(f) && f.Parent() == nil && depth < 3 {
+						// returned by a helper split off from the reference code: followed in its callers
+						followed := false
+						for _, cs := range c.familyCallSites(f) {
+							cv, ok := cs.(*ssa.Call)
+							if !ok {
+								continue
+							}
+							for i, res := range x.Results {
+								if res != v {
+									continue
+								}
+								if rv := resultValue(cv, i); rv != nil {
+									followed = true
+									problems = append(problems, o.followIn(cv.Parent(), []ssa.Value{rv}, nil, keyFields, elemIsKey, depth+1)...)
+								}
+							}
+						}
+						if followed {
+							continue
+						}
+					}
 					problems = append(problems, fmt.Sprintf("order-tainted slice returned at %s", c.ipos(rf)))
 				}
 			case *ssa.MapUpdate:
@@ -805,14 +978,7 @@ func (o *otaint) followTainted(ml *mapLoop, P taintSrc, cons string) {
 			}
 		}
 	}
-	sort.Strings(problems)
-	cons = cons + " slice " + P.name()
-	var ppos ssa.Instruction = ml.rng
-	if len(problems) == 0 {
-		r.okNT(rule, cons, c.ipos(ppos), "only len(), sanitisers (total-order sort on unique keys) or guarded singleton access before any element use")
-	} else {
-		r.viol(rule, cons, c.ipos(ppos), strings.Join(uniq(problems), "; "))
-	}
+	return problems
 }
 
 // clockRule: values derived from the wall clock may reach only logging and the allow-listed column.
